@@ -34,6 +34,11 @@ theorem C20_only_update_params_skipped :
 theorem C20_conditional_commands :
     (cliCmds.filter (·.conditional)).map (·.rpc) = ["AddAllowedBidder"] := by decide +kernel
 
+/-- what the user types is what is sent: no command configures a flag with a default value (which
+    would be put into the request although the user typed nothing), every configured flag names a
+    field of the request, and no command uses an option this table does not model -/
+theorem C20_flags_faithful : cliCmds.all (·.flagsFaithful rpcs) = true := by decide +kernel
+
 /-- the model of the binary's start-up: it starts iff every binding resolves -/
 def binaryStarts (cmds : List CliCmd) (rs : List RpcDesc) : Bool := cmds.all (·.resolves rs)
 
@@ -55,6 +60,13 @@ example : (CliCmd.resolves
       positional := ["start_price", "selling_coin", "paying_coin_denom", "vesting_schedules", "start_time", "end_time"],
       varargs := [false, false, false, false, false, false], optional := [false, false, false, false, false, false],
       conditional := false } rpcs) = false := by
+  decide +kernel
+
+/-- witness: a `DefaultValue` on the `is_matched` filter of `list-bid` (every listing typed
+    without the flag would silently exclude matched bids) is not faithful -/
+example : (CliCmd.flagsFaithful
+    { service := "Query", rpc := "ListBid", use := "list-bid", skip := false, positional := [], varargs := [], optional := [],
+      conditional := false, flagFields := ["is_matched"], flagDefaults := ["is_matched"] } rpcs) = false := by
   decide +kernel
 
 end Fundraising
